@@ -105,6 +105,9 @@ func workerMain(args []string) int {
 	fs.Parse(args)
 	runtime.GOMAXPROCS(envInt("VERIF_PROCS", 1))
 	applyGCStress()
+	if *tier == "thorough" {
+		secondPassLimit = 20 * time.Minute
+	}
 	skipSet := map[int]bool{}
 	for _, x := range strings.Split(*skip, ",") {
 		if n, err := strconv.Atoi(x); err == nil {
@@ -514,6 +517,8 @@ func pairedYields(r *RNG, occ [][]pointOcc, want int) []PointAct {
 // secondPass executes a planned trace (with statement-point actions) in a fresh
 // process, so that it is exactly what a later replay of the same file executes:
 // nothing the counting pass left behind in package-level state can leak into it.
+var secondPassLimit = 4 * time.Minute
+
 func secondPass(tr *Trace, known string, tag string) (v *Violation, tx uint64, stats *RunStats, crashed bool) {
 	tmp := fmt.Sprintf("%s/verif-pass2-%d-%s.json", os.TempDir(), os.Getpid(), tag)
 	writeJSON(tmp, &ReplayFile{Trace: tr})
@@ -529,7 +534,7 @@ func secondPass(tr *Trace, known string, tag string) (v *Violation, tx uint64, s
 		go func() { done <- cmd.Wait() }()
 		select {
 		case err = <-done:
-		case <-time.After(20 * time.Minute):
+		case <-time.After(secondPassLimit):
 			cmd.Process.Kill() // never leave a spinning child behind
 			<-done
 			return nil, 0, &RunStats{Probes: map[string]int{"second_pass_timeouts": 1}}, false
